@@ -1,5 +1,9 @@
 import AwsVerif.Proofs.C04.HostUtils
 import AwsVerif.Proofs.C04.Ipv6Groups
+import AwsVerif.Props.C01
+import AwsVerif.Props.C05
+import AwsVerif.Props.C12
+import AwsVerif.Props.C13
 /-!
 C04 — decoders and parsers are total and memory-safe on arbitrary input.
 
@@ -158,5 +162,36 @@ example : spec [49, 50, 51, 52, 53, 58, 58] false = false := by decide
 -- (C13 URI / percent-decoding / query:  c04_uri_*, c04_query_*, c04_uridec_*)
 -- (C19 date-time readers:               c04_date_*)
 -- (C01 unsigned-integer parsing:        c04_u64_*)
+
+
+/-! ### Per-parser memory-safety / totality theorems proved with the other components
+
+They are re-stated here (same statement, `type_of%`) so that the C04 obligation list, and therefore the C04
+evidence, contains them: a change that breaks one of them breaks C04 as well as its home property.
+The CBOR decoder (`Props.C10.c10_stream_decode`, `c10_consume_whole`) and the date-time readers (`Props.C19`) are
+total functions of their input by construction of the model (structural recursion / fuel shown sufficient there);
+their memory safety is decided by the sanitizer-monitored run, as for cJSON, UUID, IPv4 and the AVX2 codec. -/
+
+/-- XML: no read outside the document, for every document and callback program -/
+theorem c04_xml_no_oob : type_of% @AwsVerif.Props.C12.c04_xml_no_oob := @AwsVerif.Props.C12.c04_xml_no_oob
+/-- XML: the fuel `|doc|+1` is never exhausted -/
+theorem c04_xml_total : type_of% @AwsVerif.Props.C12.c04_xml_total := @AwsVerif.Props.C12.c04_xml_total
+/-- XML: the parse always returns -/
+theorem c04_xml_returns : type_of% @AwsVerif.Props.C12.c04_xml_returns := @AwsVerif.Props.C12.c04_xml_returns
+/-- XML: every view handed to a callback lies inside the document -/
+theorem c04_xml_views_inside : type_of% @AwsVerif.Props.C12.c04_xml_views_inside := @AwsVerif.Props.C12.c04_xml_views_inside
+/-- URI: for every input the state machine ends FINISHED or ERROR and every component view of a successful parse
+lies inside the text -/
+theorem c04_uri_views_inside : type_of% @AwsVerif.Props.C13.c13_views_inside_all := @AwsVerif.Props.C13.c13_views_inside_all
+/-- base64 decode: for every text, stores start at 0 and stay within capacity; success ⇒ reported length = bytes stored;
+failure ⇒ `len` unchanged -/
+theorem c04_b64_decode_bounds : type_of% @AwsVerif.Props.C05.c05_b64_len := @AwsVerif.Props.C05.c05_b64_len
+/-- hex decode: the same -/
+theorem c04_hex_decode_bounds : type_of% @AwsVerif.Props.C05.c05_hex_len := @AwsVerif.Props.C05.c05_hex_len
+/-- byte cursors (incl. unsigned-integer parsing, percent-decoding's `read_hex_u8`): no operation on a well-formed
+state reads or writes outside its object -/
+theorem c04_cursor_ops_in_bounds : type_of% @AwsVerif.Props.C01.c01_writes_in_bounds := @AwsVerif.Props.C01.c01_writes_in_bounds
+/-- unsigned-integer parsing: ok v iff all digits are valid for the base and the value fits 64 bits -/
+theorem c04_parse_u64 : type_of% @AwsVerif.Props.C01.c01_parse_u64_spec := @AwsVerif.Props.C01.c01_parse_u64_spec
 
 end AwsVerif.Props.C04
